@@ -44,9 +44,9 @@ func pushOf(v *big.Int) []byte {
 func cat(parts ...[]byte) []byte { return bytes.Join(parts, nil) }
 
 const (
-	opSTOP, opSHA3, opBALANCE, opCALLDATALOAD, opCALLDATACOPY, opCODECOPY, opEXTCODESIZE, opEXTCODECOPY = 0x00, 0x20, 0x31, 0x35, 0x37, 0x39, 0x3b, 0x3c
+	opSTOP, opSHA3, opBALANCE, opCALLDATALOAD, opCALLDATACOPY, opCODECOPY, opEXTCODESIZE, opEXTCODECOPY         = 0x00, 0x20, 0x31, 0x35, 0x37, 0x39, 0x3b, 0x3c
 	opRETURNDATACOPY, opBLOCKHASH, opMLOAD, opMSTORE, opMSTORE8, opSLOAD, opSSTORE, opJUMP, opJUMPI, opJUMPDEST = 0x3e, 0x40, 0x51, 0x52, 0x53, 0x54, 0x55, 0x56, 0x57, 0x5b
-	opDUP1, opDUP16, opSWAP16, opLOG0, opCREATE, opCALL, opCALLCODE, opRETURN, opDELEGATECALL, opSTATICCALL       = 0x80, 0x8f, 0x9f, 0xa0, 0xf0, 0xf1, 0xf2, 0xf3, 0xf4, 0xfa
+	opDUP1, opDUP16, opSWAP16, opLOG0, opCREATE, opCALL, opCALLCODE, opRETURN, opDELEGATECALL, opSTATICCALL     = 0x80, 0x8f, 0x9f, 0xa0, 0xf0, 0xf1, 0xf2, 0xf3, 0xf4, 0xfa
 	opREVERT, opINVALID, opSELFDESTRUCT, opADDRESS, opGAS, opCODESIZE                                           = 0xfd, 0xfe, 0xff, 0x30, 0x5a, 0x38
 )
 
